@@ -758,7 +758,7 @@ def json_paths(R: Runner, rng, kind, n):
 
 # ----------------------------------------------------------------------------- live model objects
 LIVE_KINDS = ("constant", "exponential", "skyride", "skygrid", "linear", "soft")
-TREE_KINDS = ("fake", "time", "reparam")
+TREE_KINDS = ("fake", "time", "reparam", "flexible", "shifts")
 
 
 def FX(t):
@@ -792,12 +792,22 @@ class Live:
         else:
             taxa = {f"T{i}": float(s) for i, s in enumerate(samp)}
             dic = {}
-            if tree_kind == "time":
-                js = TimeTreeModel.json_factory("tree", g["newick"], [0.0] * len(coal), taxa, keep_branch_lengths=True,
-                                                internal_heights_id="internal_heights")
+            if tree_kind in ("time", "flexible"):
+                from torchtree.evolution.tree_model_flexible import FlexibleTimeTreeModel
+
+                tcls = TimeTreeModel if tree_kind == "time" else FlexibleTimeTreeModel
+                js = tcls.json_factory("tree", g["newick"], [0.0] * len(coal), taxa, keep_branch_lengths=True,
+                                       internal_heights_id="internal_heights")
                 js["internal_heights"]["dtype"] = "torch.float64"
-                self.tree = TimeTreeModel.from_json(js, dic)
+                self.tree = tcls.from_json(js, dic)
                 self.handles["internal_heights"] = dic["internal_heights"]
+            elif tree_kind == "shifts":
+                if "shifts" not in init:
+                    init["shifts"] = [rng.uniform(0.1, 2.0) for _ in range(len(coal))]
+                shifts = {"id": "shifts", "type": "Parameter", "dtype": "torch.float64", "tensor": list(init["shifts"])}
+                js = ReparameterizedTimeTreeModel.json_factory("tree", g["newick"], taxa, shifts=shifts)
+                self.tree = ReparameterizedTimeTreeModel.from_json(js, dic)
+                self.handles["shifts"] = dic["shifts"]
             else:
                 ratios = {"id": "ratios", "type": "Parameter", "dtype": "torch.float64", "tensor": list(init["ratios"])}
                 root = {"id": "root_height", "type": "Parameter", "dtype": "torch.float64",
@@ -903,6 +913,8 @@ class Live:
                 values = self.new_grid(rng)
             elif op == "ratios":
                 values = [rng.uniform(0.1, 0.9) for _ in range(k)]
+            elif op == "shifts":
+                values = [rng.uniform(0.1, 2.0) for _ in range(k)]
             else:
                 # internal heights / root height: scaling by c >= 1 and shifting up keeps every parent above
                 # its children and its tips
